@@ -16,3 +16,5 @@ pub mod stream;
 pub mod build;
 pub mod stubs;
 pub mod queuer;
+pub mod shapes;
+pub mod harnesses;
